@@ -155,6 +155,8 @@ def install(reg, G):
     prev_getattr = reg.getattr_hook
 
     def getattr_hook(ex, st, o, d, name, node):
+        if isinstance(d, h5.FamElem) and name == 'attrs':
+            return ('famattrs', d)
         if isinstance(d, ClassVal) and name == 'read' and d.name in (
                 'UnitCube', 'NautilusBound'):
             return PyCallable(G['read_uc'] if d.name == 'UnitCube'
@@ -179,6 +181,15 @@ def install(reg, G):
     COMP = {'state': 0, 'inc': 1, 'has_uint32': 2, 'uinteger': 3}
 
     def subscript_hook(ex, st, base, d, sl, node):
+        if isinstance(base, tuple) and base and base[0] == 'famattrs':
+            key = ex.eval(sl, st)
+            if key != 'type':
+                raise OutsideSubset('attribute of an abstract bound group',
+                                    node)
+            h = base[1]
+            tok = st.cell(h.gref).fams[h.prefix].at(h.idx)
+            # every bound class writes its class name under 'type'
+            return Sym(TB_bound(tok), 'BoundTypeOf')
         if isinstance(base, RngState):
             key = ex.eval(sl, st)
             if key == 'state':
@@ -193,6 +204,14 @@ def install(reg, G):
             return prev_sub(ex, st, base, d, sl, node)
         return NotImplemented
     reg.subscript_hook = subscript_hook
+
+    def compare_hook(ex, st, op, a, b):
+        if isinstance(a, Sym) and a.k == 'BoundTypeOf' and isinstance(
+                op, ast.Eq) and b in ('UnitCube', 'NautilusBound'):
+            t = M.isNB(a.t)
+            return Sym(z3.Not(t) if b == 'UnitCube' else t, 'bool')
+        return NotImplemented
+    reg.compare_hook = compare_hook
 
     def str_hook(ex, st, v, node):
         if isinstance(v, Sym) and v.k == 'RngVal':
@@ -544,3 +563,28 @@ def unit_update(cx, fe, info, ex):
                                   kind='post')
     guarded(cx, 'Sampler.write_shell_update', body)
     fn_entry(fe, info, SQ + 'write_shell_update')
+
+
+_cache = {}
+
+
+def replay(r, tier, seed):
+    from .common import run_runtime
+    if 'rt' not in _cache:
+        _cache['rt'] = run_runtime('check_c05.py', [3], timeout=1200)
+    return _cache['rt']
+
+
+def bounded(tier, seed):
+    if tier != 'thorough':
+        return []
+    from .common import run_runtime
+    rt = run_runtime('check_c05.py', [8], timeout=3000)
+    viol = [dict(id='resume', **rt)] if rt.get('found') else []
+    return [dict(name='C05/bounded/stop_resume',
+                 what='bit-identical posterior / log_z / n_eff / n_like after '
+                      'stop + resume from the file at 8 batch boundaries per '
+                      'configuration (with network, with blobs, discard on/off),'
+                      ' toggle history, removed first shell',
+                 bound='2 scenarios x 2 x 8 stops', observed=rt.get('observed'),
+                 error=rt.get('error'), violations=viol)]
